@@ -656,29 +656,182 @@ fn c12_o5_table_full_bucket() {
     std::mem::forget(rt);
 }
 
-//@ ob: C12.O6
-//@ tier: off
-//@ cap: 3000
+//@ ob: C12.O5d
+//@ tier: thorough
+//@ cap: 2400
 //@ standins: vcoll
-//@ also: C14 C20
-//@ desc: iteration agrees with the table's contents whatever buckets exist: on a table whose bucket map holds an emptied bucket (what remove() leaves behind), a one-node bucket and a two-node bucket, nodes() yields exactly the three entries (nearer buckets first, bucket order inside), size() = 3, is_empty() is false, to_owned_nodes() has the same three -- an emptied bucket never hides the buckets after it
-//@ bounds: buckets 150 (empty, position symbolic: before, between or absent), 155 (1 node), 160 (2 nodes); concrete ids, private IPs; unwind 8, RoutingTableIterator::next 163
+//@ also: C20
+//@ desc: full bucket at the table level, bucket built directly: 20 distinct nodes created at time 0 fill bucket 160; at a symbolic later time one more node of the same distance class is added through RoutingTable::add: it is admitted iff the least recently seen entry is stale (> 900 s), then exactly that entry goes; in both cases the bucket holds 20, and size(), is_empty() and iteration over nodes() agree (20 entries) -- a replacement is not a growth
+//@ bounds: 20 concrete nodes (ids [0x80, i, 0..], private IPs 10.0.1.i) created at t = 0; newcomer concrete; 'now' symbolic <= 2000 s; unwind 23, RoutingTableIterator::next 163
 //@ stubs: std::time::Instant::now -> symbolic whole-second clock
-//@ functions: RoutingTable::{nodes,size,is_empty,to_owned_nodes}, RoutingTableIterator::next
+//@ functions: RoutingTable::{add,size,is_empty,nodes}, KBucket::add, Node::is_stale, RoutingTableIterator::next
+//@ unwindset: RoutingTableIterator = 163
+#[kani::proof]
+#[kani::stub(std::time::Instant::now, clock::now)]
+#[kani::unwind(23)]
+fn c12_o5d_table_full_bucket_direct() {
+    clock::set(0);
+    let mut nodes = Vec::with_capacity(20);
+    let mut i = 0u8;
+    while i < 20 {
+        nodes.push(node_160(i + 1, 0, [10, 0, 1, i]));
+        i += 1;
+    }
+    let mut rt = direct_table(nodes);
+    let now: u64 = kani::any();
+    kani::assume(now <= 2000);
+    clock::set(now);
+    let r = rt.add(node_160(99, 0, [10, 0, 2, 1]));
+    assert!(r == (now > 900), "C12.O2 full bucket admits iff head is stale (> 15 min)");
+    let n = rt.nodes().count();
+    assert!(n == 20, "C12.O2 bucket never exceeds 20");
+    assert!(rt.size() == n, "C12.O3 size agrees with iteration");
+    assert!(!rt.is_empty(), "C12.O3 is_empty agrees with size");
+    let b = rt.buckets.get(&160).unwrap();
+    if r {
+        assert!(b.nodes[0].id().as_bytes()[1] == 2 && b.nodes[19].id().as_bytes()[1] == 99, "C12.O2 only the head is evicted");
+    } else {
+        assert!(b.nodes[0].id().as_bytes()[1] == 1 && b.nodes[19].id().as_bytes()[1] == 20, "C12.O2 fresh bucket unchanged");
+    }
+    kani::cover!(r);
+    kani::cover!(!r);
+    std::mem::forget(rt);
+}
+
+//@ ob: C12.O4c
+//@ tier: thorough
+//@ cap: 2400
+//@ standins: vcoll
+//@ also: C20
+//@ desc: reset_id on a table with entries in three buckets (distances 155, 158, 160) and a new id whose distance to the old id is exactly 158 (the pivot bucket itself holds an entry): afterwards the id is the new one, all three entries are still present, each sits in the bucket of its distance to the NEW id (the entry of the pivot bucket included), and the table's lookup statistics (counters and sums, which mirror the cached lookups) are untouched
+//@ bounds: concrete ids ([0x04..] / [0x20..] / [0x80..]), private IPs; new id [0x20, b1, 0..] with b1 symbolic non-zero; unwind 8, RoutingTableIterator::next 163
+//@ stubs: std::time::Instant::now -> symbolic whole-second clock
+//@ functions: RoutingTable::{reset_id,add,to_owned_nodes}, Id::distance
 //@ unwindset: RoutingTableIterator = 163
 #[kani::proof]
 #[kani::stub(std::time::Instant::now, clock::now)]
 #[kani::unwind(8)]
-fn c12_o6_iteration_agrees_with_buckets() {
+fn c12_o4c_rekey_pivot_bucket() {
+    clock::set(0);
+    let mut rt = RoutingTable::new(Id::from([0u8; 20]));
+    let mk = |b0: u8, last: u8| {
+        let mut a = [0u8; 20];
+        a[0] = b0;
+        Node::new(Id::from(a), SocketAddrV4::new([10, 0, 0, last].into(), 6881))
+    };
+    let x = mk(0x04, 1); // distance 155 to the old id
+    let y = mk(0x20, 2); // distance 158: the pivot bucket
+    let z = mk(0x80, 3); // distance 160
+    rt.buckets.insert(155, KBucket { nodes: vec![x.clone()] });
+    rt.buckets.insert(158, KBucket { nodes: vec![y.clone()] });
+    rt.buckets.insert(160, KBucket { nodes: vec![z.clone()] });
+    rt.dht_size_estimates_count = 3;
+    rt.responders_samples_count = 2;
+    rt.responders_subnets_sum = 5;
+    rt.dht_size_estimates_sum = 4.0;
+    rt.responders_size_estimates_sum = 8.0;
+    let mut nb = [0u8; 20];
+    nb[0] = 0x20;
+    nb[1] = kani::any();
+    kani::assume(nb[1] != 0);
+    let new_id = Id::from(nb);
+    rt.reset_id(new_id);
+    assert!(*rt.id() == new_id, "C12.O4 reset_id sets the id");
+    assert!(rt.size() == 3, "C12.O4 reset_id keeps every other entry");
+    let es = [x, y, z];
+    let mut i = 0;
+    while i < 3 {
+        let d = new_id.distance(es[i].id());
+        let ok = match rt.buckets.get(&d) {
+            Some(b) => b.nodes.iter().any(|n| n.id() == es[i].id()),
+            None => false,
+        };
+        assert!(ok, "C12.O4 entry sits in the bucket of its distance after re-keying");
+        i += 1;
+    }
+    assert!(rt.dht_size_estimates_count == 3 && rt.responders_samples_count == 2 && rt.responders_subnets_sum == 5, "C20 re-keying keeps the lookup statistics counters");
+    assert!(rt.dht_size_estimates_sum == 4.0 && rt.responders_size_estimates_sum == 8.0, "C20 re-keying keeps the lookup statistics sums");
+    kani::cover!(nb[1] == 1);
+    kani::cover!(nb[1] >= 0x80);
+    std::mem::forget(es);
+    std::mem::forget(rt);
+}
+
+//@ ob: C12.O3k
+//@ tier: thorough
+//@ cap: 2400
+//@ standins: vcoll
+//@ also: C14
+//@ desc: a known id that re-appears from ANOTHER IP does not bypass the per-IP Sybil rule: the table holds A (1.2.3.4) and an insecure B (8.8.8.8); a node with A's id arriving from 8.8.8.8 (secure or not) is refused and the table is unchanged (A keeps its address, B stays) -- while the same id arriving again from A's own address refreshes A (C14.O1: last_seen = now, exactly one entry for A)
+//@ bounds: concrete ids in one bucket (160); A secure / insecure and the incoming node secure / insecure as pre-drawn bits of the uninterpreted validity predicate; B insecure (assumed); symbolic clock step; unwind 8
+//@ stubs: Node::is_secure -> uninterpreted predicate (see C12.O3); std::time::Instant::now -> symbolic whole-second clock
+//@ functions: RoutingTable::add (per-IP scan skipping same-id entries), KBucket::add
+#[kani::proof]
+#[kani::stub(std::time::Instant::now, clock::now)]
+#[kani::stub(crate::common::node::Node::is_secure, crate::verif_env::ufs::is_secure)]
+#[kani::unwind(8)]
+fn c12_o3k_known_id_other_ip() {
+    crate::verif_env::ufs::arm(kani::any());
+    clock::set(0);
+    let mut ia = [0u8; 20];
+    ia[0] = 0x80;
+    ia[1] = 1;
+    ia[19] = 1;
+    let mut ib = [0u8; 20];
+    ib[0] = 0x80;
+    ib[1] = 2;
+    ib[19] = 2;
+    let a_addr = SocketAddrV4::new([1, 2, 3, 4].into(), 6881);
+    let b_addr = SocketAddrV4::new([8, 8, 8, 8].into(), 6881);
+    let a = Node::new(Id::from(ia), a_addr);
+    let b = Node::new(Id::from(ib), b_addr);
+    kani::assume(!b.is_secure());
+    let mut rt = direct_table(vec![a.clone(), b.clone()]);
+    let dt: u64 = kani::any();
+    kani::assume(dt <= 2000);
+    clock::set(dt);
+    let other_ip: bool = kani::any();
+    let inc = Node::new(Id::from(ia), if other_ip { b_addr } else { a_addr });
+    let r = rt.add(inc);
+    let bk = rt.buckets.get(&160).unwrap();
+    assert!(bk.nodes.len() == 2, "C14.O1 re-adding a known peer keeps the table size");
+    let mut a_count = 0;
+    let mut a_at_b = false;
+    let mut a_fresh = false;
+    let mut b_there = false;
+    let mut i = 0;
+    while i < 2 {
+        let n = &bk.nodes[i];
+        if n.id() == a.id() {
+            a_count += 1;
+            a_at_b = n.address() == b_addr;
+            a_fresh = n.0.last_seen == clock::now();
+        }
+        if n.id() == b.id() {
+            b_there = true;
+        }
+        i += 1;
+    }
+    assert!(a_count == 1 && b_there, "C14.O1 known peer present exactly once");
+    if other_ip {
+        assert!(!r && !a_at_b, "C12.O3 ids distinct and per-IP Sybil limit holds");
+    } else {
+        assert!(r && a_fresh, "C14.O1 a reply refreshes the peer's last_seen");
+    }
+    kani::cover!(other_ip);
+    kani::cover!(!other_ip && dt > 900);
+    std::mem::forget(rt);
+}
+
+fn iteration_instance(gap: u8) {
     clock::set(0);
     let mut rt = RoutingTable::new(Id::from([0u8; 20]));
     let mut ida = [0u8; 20];
     ida[0] = 0x04; // distance 155
-    let a = Node::new(Id::from(ida), SocketAddrV4::new([10, 0, 0, 1].into(), 6881));
+    // (ports symbolic: the entries are not constants, the table shape is)
+    let a = Node::new(Id::from(ida), SocketAddrV4::new([10, 0, 0, 1].into(), kani::any()));
     let b = node_160(1, 0, [10, 0, 0, 2]);
     let c = node_160(2, 0, [10, 0, 0, 3]);
-    let gap: u8 = kani::any();
-    kani::assume(gap < 3);
     if gap == 1 {
         rt.buckets.insert(150, KBucket { nodes: Vec::with_capacity(1) });
     } else if gap == 2 {
@@ -696,8 +849,69 @@ fn c12_o6_iteration_agrees_with_buckets() {
     assert!(matches!(&e2, Some(x) if same(x, &c)), "C12.O3 nodes() yields exactly the entries");
     assert!(e3.is_none(), "C12.O3 nodes() yields exactly the entries");
     assert!(rt.size() == 3 && !rt.is_empty(), "C12.O3 size agrees with iteration");
-    kani::cover!(gap == 1);
-    kani::cover!(gap == 2);
-    kani::cover!(gap == 0);
+    kani::cover!(a.address().port() == 0);
+    kani::cover!(a.address().port() != 0);
+    std::mem::forget(rt);
+}
+
+//@ ob: C12.O6a
+//@ tier: thorough
+//@ cap: 1500
+//@ standins: vcoll
+//@ also: C14 C20
+//@ desc: iteration agrees with the table's contents when the bucket map holds an emptied bucket (what remove() leaves behind) BEFORE the occupied ones: nodes() yields exactly the three entries (nearer buckets first, bucket order inside), size() = 3, is_empty() is false -- an emptied bucket never hides the buckets after it
+//@ bounds: buckets 150 (empty), 155 (1 node), 160 (2 nodes); concrete ids, private IPs, one symbolic port; unwind 8, RoutingTableIterator::next 163
+//@ stubs: std::time::Instant::now -> symbolic whole-second clock
+//@ functions: RoutingTable::{nodes,size,is_empty}, RoutingTableIterator::next
+//@ unwindset: RoutingTableIterator = 163
+#[kani::proof]
+#[kani::stub(std::time::Instant::now, clock::now)]
+#[kani::unwind(8)]
+fn c12_o6a_iteration_empty_bucket_first() {
+    iteration_instance(1);
+}
+
+//@ ob: C12.O6b
+//@ tier: thorough
+//@ cap: 1500
+//@ standins: vcoll
+//@ also: C14 C20
+//@ desc: as C12.O6a with the emptied bucket BETWEEN the occupied ones (157 between 155 and 160)
+//@ bounds: buckets 155 (1 node), 157 (empty), 160 (2 nodes); concrete ids, private IPs, one symbolic port; unwind 8, RoutingTableIterator::next 163
+//@ stubs: std::time::Instant::now -> symbolic whole-second clock
+//@ functions: RoutingTable::{nodes,size,is_empty}, RoutingTableIterator::next
+//@ unwindset: RoutingTableIterator = 163
+#[kani::proof]
+#[kani::stub(std::time::Instant::now, clock::now)]
+#[kani::unwind(8)]
+fn c12_o6b_iteration_empty_bucket_between() {
+    iteration_instance(2);
+}
+
+//@ ob: C12.O6c
+//@ tier: thorough
+//@ cap: 1500
+//@ standins: vcoll
+//@ also: C14 C20
+//@ desc: a table whose only bucket has been emptied (every peer purged by a ping round) is empty: is_empty() is true, size() is 0, nodes() yields nothing -- so the maintenance loop re-bootstraps; and after one add it is non-empty with size 1
+//@ bounds: one emptied bucket (160); then one add of a node with a symbolic id byte in class 160; unwind 21, RoutingTableIterator::next 163
+//@ stubs: std::time::Instant::now -> symbolic whole-second clock
+//@ functions: RoutingTable::{is_empty,size,nodes,add}, RoutingTableIterator::next
+//@ unwindset: RoutingTableIterator = 163
+#[kani::proof]
+#[kani::stub(std::time::Instant::now, clock::now)]
+#[kani::unwind(21)]
+fn c12_o6c_emptied_table_is_empty() {
+    clock::set(0);
+    let mut rt = RoutingTable::new(Id::from([0u8; 20]));
+    rt.buckets.insert(160, KBucket { nodes: Vec::with_capacity(1) });
+    assert!(rt.is_empty() && rt.size() == 0, "C12.O3 is_empty agrees with size");
+    assert!(rt.nodes().next().is_none(), "C12.O3 nodes() yields exactly the entries");
+    let n = node_160(kani::any(), 0, [10, 0, 0, 2]);
+    let r = rt.add(n.clone());
+    assert!(r && !rt.is_empty() && rt.size() == 1, "C12.O3 size agrees with iteration");
+    let mut it = rt.nodes();
+    assert!(matches!(it.next(), Some(x) if same(&x, &n)) && it.next().is_none(), "C12.O3 nodes() yields exactly the entries");
+    kani::cover!(r);
     std::mem::forget(rt);
 }
